@@ -285,8 +285,16 @@ def _check_property(pid, tier):
                     samples.append({'obligation': '%s::lemma::%s' % (u, short), 'backend': 'verus-z3'})
         for path, fr in r.fn_results.items():
             solver_ms['%s:%s' % (u, path.split('::', 1)[-1])] = fr.get('time_ms')
+        shape = {info.fn: info.shape_changed for info in r.unit_obj.fns if info.shape_changed and not info.trusted}
         for f in r.failures:
             if not in_scope(prop, u, f.fn, f.kind, f.span_text):
+                continue
+            if f.fn in shape:
+                # the body has a loop without invariant or a closure without exported ensures: Verus forgets facts the
+                # code establishes there, so this failure cannot be attributed to the code
+                msg = 'unit %s: %s: obligation not discharged, but the body has %s -> cannot be decided by these contracts (%s)' % (u, f.fn, shape[f.fn], f.obligation[:160])
+                if msg not in undecided:
+                    undecided.append(msg)
                 continue
             k = match_known(known, pid, f.obligation)
             if k:
